@@ -168,6 +168,13 @@ class Interp:
             if fv is not None and fv.kind == "lib":
                 return V("call", fv.a, args, kw, node=e)
             return V("call", norm(f), args, kw, node=e)
+        if isinstance(e, ast.Dict) and any(k is None for k in e.keys):
+            # {'tag': 1, **data}: the data merged with other entries -- a transformation of the data like any call
+            unpacked = [self._expr(v, env, imports, fn, depth) for k, v in zip(e.keys, e.values) if k is None]
+            extra = [norm(k) for k in e.keys if k is not None]
+            return V("call", "{" + ", ".join(extra) + ", **data} (entries merged into the dictionary)", unpacked, {}, node=e)
+        if isinstance(e, ast.BinOp) and isinstance(e.op, ast.BitOr):
+            pass
         if isinstance(e, ast.JoinedStr):
             return V("unknown", norm(e), node=e)
         return V("unknown", norm(e)[:60], node=e)
